@@ -148,7 +148,11 @@ def run(P, R, tier):
                 pair_ok = pair_ok and len(aug) == 1 and norm(aug[0].target.slice) == ir
                 R.check(pair_ok, 'C08.c', f, s, f'widening compares lb/ub of the same axis ({il},{ir}) and widens the upper end',
                         f'widening `{norm(s)}` does not compare (x0,x1)/(y0,y1) of the same axis and widen the upper end')
-    R.floor('C08.c', 'widening tests', nw, 3)
+    in_dfb = sum(1 for o in R.obs if o.rule == 'C08.c' and 'widening is triggered' in o.detail and o.site.endswith(dfb.qualname))
+    in_hd = sum(1 for o in R.obs if o.rule == 'C08.c' and 'widening' in o.detail and o.site.endswith(hd.qualname))
+    R.check(nw >= 1 and (in_dfb >= 1 or in_hd >= 2), 'C08.c', hd, None, 'a zero-width / zero-height extent is widened before the scaling, for every axis',
+            'no degenerate-extent widening remains between total_bounds and the scaling (n / (hi - lo)): a zero-width or zero-height extent divides by zero',
+            construct='degenerate extent widened on the path to the scaling')
 
     # ---------------------------------------------------------------- C08.d
     C = cfgmod.build(d2c.node)
